@@ -843,6 +843,10 @@ def norm(e):
         x = norm(e[1])
         if x[0] == "call" and isinstance(x[1], str) and x[1].endswith("Try>::branch") and "option::Option" in x[1] and len(x[2]) == 1 and e[2] in ("Continue", "Break"):
             return ("variant", x[2][0], "Some" if e[2] == "Continue" else "None")
+        # map / map_err keep the variant of the value they are applied to
+        while x[0] == "call" and len(x[2]) == 2 and e[2] in ("Ok", "Err", "Some", "None") and \
+                re.search(r"(^|::)(Result|Option)(::<[^>]*>)?::(map|map_err|inspect|inspect_err)$", x[1]):
+            x = x[2][0]
         return ("variant", x, e[2])
     if k == "icall":
         return ("icall", norm(e[1]), tuple(norm(x) for x in e[2]))
@@ -1044,6 +1048,11 @@ class PathState:
         cur = self.value(atom)
         if cur is not None and cur != val:
             return None  # infeasible
+        if val is True and atom[0] == "variant":
+            # an enum value has one variant: `x is A` known, `x is B` cannot be taken
+            for a, v in self.lits:
+                if v is True and a[0] == "variant" and a[1] == atom[1] and a[2] != atom[2]:
+                    return None
         nl = self.lits if cur is not None else (self.lits | {(atom, val)})
         h = self.value(atom, True)
         if h is None:
@@ -1176,6 +1185,10 @@ def dataflow(body, init_user=None, node_fn=None, edge_fn=None, max_states=4096, 
                 elif op_.get("k") in ("copy", "move") and not op_["pl"]["p"]:
                     flag = (norm(body.place_expr(node["pl"], False)), None)
                     flag_src = norm(body.place_expr(op_["pl"], False))
+            if track_lits and si < n_st and node["k"] == "assign" and not node["pl"]["p"] and node["rv"]["k"] == "agg" and node["rv"].get("ak") == "adt" \
+                    and node["rv"].get("variant") and len(body.defs.get(node["pl"]["l"], ())) > 1:
+                # `x = Variant(..)` on one of several definitions of x: a later `match x` on this path takes that arm only
+                flag = (("variant", norm(body.place_expr(node["pl"], False)), node["rv"]["variant"]), True)
             for s in states:
                 outs = None
                 if node_fn is not None:
